@@ -58,3 +58,21 @@ Theorem C03_seed_independent_collision_refuted : forall seed, in64 seed ->
   hash_words fixed_steps fold_mult seed [5987515076937770397; -1928796979971312683].
 Proof. exact hash_words_seed_independent_collision. Qed.
 Print Assumptions C03_seed_independent_collision_refuted.
+
+From V Require Import Base Tensor Graph GraphProofs GraphImpl Hash Def Paths BfsStep Bfs BfsRun BfsProofs PathsProofs Mitm MitmProofs PathRun MitmFind Interactive InteractiveBetween InstPerm InstSmall InstBfs InstPaths.
+
+(* the identity hash on a one-word code is injective on all states of the right length and alphabet (no assumption) *)
+Theorem C03_identity_hash_nocoll :
+  forall (steps : list mix_step) (mult : Z) (d : gdesc),
+         wf_perm_desc d ->
+         g_hasher d = HIdentity -> single_word d -> NoCollOn (mk_impl steps mult d) (Ustates d).
+Proof. exact @identity_nocoll. Qed.
+Print Assumptions C03_identity_hash_nocoll.
+
+(* conversely injectivity of the identity hash forces the code to fit one word (an explicit collision otherwise): hasher.py's rule is necessary *)
+Theorem C03_identity_hash_needs_single_word :
+  forall (steps : list mix_step) (mult : Z) (d : gdesc),
+         wf_perm_desc d ->
+         g_hasher d = HIdentity -> NoCollOn (mk_impl steps mult d) (Ustates d) -> single_word d.
+Proof. exact @identity_nocoll_single_word. Qed.
+Print Assumptions C03_identity_hash_needs_single_word.
